@@ -185,6 +185,14 @@ func evalCase(r *rep.Run, e *sys.Env, c Case, idx int) {
 			return nil
 		}
 		hungBefore := faketc.Hung
+		poolInUse := func() int {
+			n := e.AT.Stats().InUse
+			if rdb := e.ResourceDB(); rdb != nil {
+				n += rdb.Stats().InUse
+			}
+			return n
+		}
+		inUseBefore := poolInUse() // (a handler that hung in an earlier case of this closed system keeps its connection: known finding)
 		resp, ok := e.TC.BranchRollback(xid, brs[0])
 		e.Srv.Fault = nil
 		r.Eval(hit)
@@ -214,6 +222,16 @@ func evalCase(r *rep.Run, e *sys.Env, c Case, idx int) {
 		if e.Srv.OpenTxCount() != 0 || e.Srv.HeldLocks() != 0 {
 			viol("fault-leak", fmt.Sprintf("after the failed attempt (step %d): open transactions %d, row locks %d", c.N, e.Srv.OpenTxCount(), e.Srv.HeldLocks()))
 			return
+		}
+		// the failed attempt gave its connection back: one that stays checked out exhausts a bounded pool after a few failures
+		// and every later delivery waits for a connection for ever
+		if c.Kind == "db-error" {
+			quiet.Spin(nil, 3) // database/sql gives a connection back from a goroutine of its own when a context ends
+			in := poolInUse() - inUseBefore
+			if in > 0 {
+				viol("fault-connection-kept", fmt.Sprintf("after the failed attempt (step %d) %d connection(s) of the pool are still checked out", c.N, in))
+				return
+			}
 		}
 		// clean redelivery
 		resp, ok = e.TC.BranchRollback(xid, brs[0])
